@@ -331,9 +331,17 @@ Qed.
 
 End S.
 
-Lemma method_param_refuted_l : exists sub A v,
-  method_param_accepts (Some (DGen "T")) [("T", A)] v = true /\ of_type sub v A = false.
-Proof. exists (fun _ _ => false), CInt, (VStr "s"). split; reflexivity. Qed.
+(* a T-typed method parameter accepts exactly the values of the instantiation's argument — except
+   that null is let through *)
+Lemma method_param_exact_l sub n A v : v <> VNull ->
+  method_param_accepts sub (Some (DGen n)) [(n, A)] v = of_type sub v A.
+Proof.
+  intros Hv. unfold method_param_accepts. simpl. rewrite String.eqb_refl.
+  destruct v; try congruence; destruct A; reflexivity.
+Qed.
+Lemma method_param_null_refuted_l : exists sub A,
+  method_param_accepts sub (Some (DGen "T")) [("T", A)] VNull = true /\ of_type sub VNull A = false.
+Proof. exists (fun _ _ => false), CInt. split; reflexivity. Qed.
 Lemma ctor_promoted_refuted_l : exists sub A v,
   ctor_promoted_accepts (Some (DGen "T")) [("T", A)] v = true /\ of_type sub v A = false.
 Proof. exists (fun _ _ => false), CInt, (VStr "s"). split; reflexivity. Qed.
